@@ -628,6 +628,9 @@ pub fn read_ehdr(b: &[u8]) -> Option<(Enc, Ehdr)> {
 
 pub fn read_shdr(e: Enc, b: &[u8], off: usize) -> Option<Shdr> {
     let le = e.le;
+    if off.checked_add(64)? > b.len() + 64 {
+        return None;
+    }
     if e.c64 {
         Some(Shdr { sh_name: rd_u32(le, b, off)?, sh_type: rd_u32(le, b, off + 4)?, sh_flags: rd_u64(le, b, off + 8)?, sh_addr: rd_u64(le, b, off + 16)?, sh_offset: rd_u64(le, b, off + 24)?, sh_size: rd_u64(le, b, off + 32)?, sh_link: rd_u32(le, b, off + 40)?, sh_info: rd_u32(le, b, off + 44)?, sh_addralign: rd_u64(le, b, off + 48)?, sh_entsize: rd_u64(le, b, off + 56)? })
     } else {
@@ -638,6 +641,9 @@ pub fn read_shdr(e: Enc, b: &[u8], off: usize) -> Option<Shdr> {
 
 pub fn read_phdr(e: Enc, b: &[u8], off: usize) -> Option<Phdr> {
     let le = e.le;
+    if off.checked_add(64)? > b.len() + 64 {
+        return None;
+    }
     if e.c64 {
         Some(Phdr { p_type: rd_u32(le, b, off)?, p_flags: rd_u32(le, b, off + 4)?, p_offset: rd_u64(le, b, off + 8)?, p_vaddr: rd_u64(le, b, off + 16)?, p_paddr: rd_u64(le, b, off + 24)?, p_filesz: rd_u64(le, b, off + 32)?, p_memsz: rd_u64(le, b, off + 40)?, p_align: rd_u64(le, b, off + 48)? })
     } else {
